@@ -1,4 +1,16 @@
-//! Kani harnesses on the REAL compiled lightmotif crate (path dependency on /repo/lightmotif).
+//! Kani harnesses on the REAL compiled lightmotif crate (path dependency on /repo/lightmotif, feature `verif-hooks`).
 #![allow(unused)]
 #[cfg(kani)]
 mod abc_tables;
+#[cfg(kani)]
+mod intrinsics;
+#[cfg(kani)]
+mod simd_encode;
+#[cfg(kani)]
+mod simd_max;
+#[cfg(kani)]
+mod simd_score;
+#[cfg(kani)]
+mod dense_layout;
+#[cfg(kani)]
+mod simd_stripe;
